@@ -27,6 +27,8 @@ Plan gen_conc(u64 seed); void run_conc(const Plan &p);
 Plan gen_concneg(u64 seed); void run_concneg(const Plan &p);
 Plan gen_fuzzreg(u64 index);
 Plan gen_synth(u64 seed);
+void synth_program(u64 seed, std::vector<i64> &out);
+std::vector<u32> synth_text(Rng &r, unsigned maxlen);
 void silf_override(Store &st, const Fault &f);
 size_t fuzzreg_count();
 void feat_override(Store &st, const Fault &f);
